@@ -12,6 +12,8 @@ import LinVerif.Lemmas.C20Merge
 import LinVerif.Lemmas.C20Bits
 import LinVerif.Lemmas.C20Louds
 import LinVerif.Lemmas.C20LoudsGet
+import LinVerif.Lemmas.C20Wire
+import LinVerif.Lemmas.C20IterMachine
 import LinVerif.Model.Louds
 import LinVerif.Model.TrieBucket
 import LinVerif.Generated.C20
@@ -236,7 +238,97 @@ theorem merge_get_eq_union_lookup_partial (eon step : Bool) {bs : Nat} (hbs : 1 
     ((sortKVs_perm _).trans hr3).trans (sortKVs_perm _).symm
   exact lookup_perm (hdr.perm (sortKVs_perm _).symm) h1 key
 
+theorem filter_key_eq_lookup {l : List KV} (hd : DistinctKeys l) (k : Key) :
+    (l.filter (fun kv => k == kv.1)).map (·.2) =
+      (match lookup k l with
+       | some v => [v]
+       | none => []) := by
+  induction l with
+  | nil => rfl
+  | cons x xs ih =>
+    obtain ⟨xk, xv⟩ := x
+    have hd' := List.pairwise_cons.1 hd
+    by_cases hk : xk = k
+    · subst hk
+      rw [lookup_cons_eq]
+      have hnone : xs.filter (fun kv => xk == kv.1) = [] := by
+        apply List.filter_eq_nil_iff.2
+        intro y hy
+        have := hd'.1 y hy
+        simpa using this
+      simp [List.filter_cons, hnone]
+    · rw [lookup_cons_ne hk, ← ih hd'.2]
+      have : (k == xk) = false := by simpa using (fun e => hk e.symm)
+      simp [List.filter_cons, this]
+
+theorem filter_flatMap {α β} (p : β → Bool) (f : α → List β) (l : List α) :
+    (l.flatMap f).filter p = l.flatMap (fun a => (f a).filter p) := by
+  induction l with
+  | nil => rfl
+  | cons a r ih => simp [List.flatMap_cons, List.filter_append, ih]
+
+theorem built_prefixIter {step : Bool} {t : Node} (h : Built t) (p : Key) :
+    prefixIter step t p = withPrefix p (iter t) := by
+  obtain ⟨kvs, hb, hbt⟩ := h
+  rw [prefix_iter_eq_filter step hb hbt p, iter_eq_sorted hb hbt]
+
+/-- **like dispatch** (`indexKVStore.FindValuesByLike` over the flushed bucket): whatever branch the
+pattern selects — everything, prefix iteration from `p` + `HasPrefix`, full iteration +
+`HasSuffix` / `Contains`, or the exact lookup — the values collected are exactly the values of
+the pairs whose key matches the pattern (`_partial`: the exact-lookup branch inherits the
+{"\xff"} exclusion of `Get` for the unrepaired terminator test) -/
+theorem like_dispatch_eq_filter_partial (eon step : Bool) {ts : List Node} (hts : ∀ t ∈ ts, Built t)
+    (hd : DistinctKeys (ts.flatMap iter)) (hff : eon = false → ∀ v, ([255], v) ∉ ts.flatMap iter)
+    (like : Key) :
+    bucketLike eon step ts like =
+      ((ts.flatMap iter).filter (fun kv => likeMatches like kv.1)).map (·.2) := by
+  have hall : bucketPrefix step ts [] = ts.flatMap iter := by
+    unfold bucketPrefix
+    exact flatMap_congr_mem (fun t ht => prefixIter_nil_of_built (hts t ht))
+  unfold bucketLike likeMatches
+  cases hp : likePlan like with
+  | nothing => simp
+  | all =>
+    simp only [hall]
+    congr 1
+  | withPrefix p =>
+    simp only
+    have : bucketPrefix step ts p = (ts.flatMap iter).filter (fun kv => hasPrefix p kv.1) := by
+      unfold bucketPrefix
+      rw [filter_flatMap]
+      exact flatMap_congr_mem (fun t ht => built_prefixIter (hts t ht) p)
+    rw [this, List.filter_filter]
+    simp
+  | withSuffix sfx => simp only [hall]
+  | containing m => simp only [hall]
+  | exact k =>
+    simp only
+    rw [bucket_get_eq_lookup_partial eon hts hd hff k, ← lookup_perm hd (sortKVs_perm _).symm,
+      filter_key_eq_lookup hd k]
+    cases lookup k (ts.flatMap iter) <;> rfl
+
 end Bucket
+
+/-! ### the serialised byte layout (Write / MarshalSize / UnmarshalBinary) -/
+section Wire
+open LinVerif.TrieWire LinVerif.Louds
+
+/-- **`UnmarshalBinary (Write t) = t`** on the byte-layout model, for every well-formed wire
+image (counts fit uint32, the rank/select tables have the length the reader recomputes) -/
+theorem unmarshal_marshal (w : Wire) (h : WireOK w) : unmarshal (marshal w) = some w :=
+  unmarshal_marshal_wire w h
+
+/-- … in particular for the encoding of every tree (every label / node count, multiples of the
+rank block size included), under the size bounds only -/
+theorem unmarshal_marshal_encode (t : Node) (hb : WireBounded (toWire (encode t))) :
+    unmarshal (marshal (toWire (encode t))) = some (toWire (encode t)) :=
+  unmarshal_marshal_wire _ (wireOK_encode t hb)
+
+/-- `len(Write t) = MarshalSize t` -/
+theorem marshal_size (w : Wire) (h : WireOK w) : (marshal w).length = marshalSize w :=
+  marshal_length w h
+
+end Wire
 
 /-! ### layer 2: rank / select on bit vectors and the LOUDS position formulas -/
 section Layer2
@@ -310,10 +402,11 @@ level order (node ids) and `flatItems t` the labels in vector order,
   level-order index of exactly that child node;
 * at a label without child, `valuePos(pos)` indexes exactly that label's value.
 These compose (with the label scan, `nodeSize`, and the prefix/suffix lookup through the
-hasPrefix/hasSuffix rank vectors) into `louds_get_refines_tree` below. What is NOT proved (tied by
-the array-level correspondence instead): ordered iteration / `Seek` over the vectors (the
-iterator's explicit-stack stepping `Next`/`Prev`/`setAt`; `loudsIter (encode t) = iter t`) and the
-byte layout of `Write`/`UnmarshalBinary`. -/
+hasPrefix/hasSuffix rank vectors) into `louds_get_refines_tree` and (with the stack machine) into
+`louds_iter_refines_tree` below. What is NOT proved (tied by the correspondence ops `sseek`,
+`sprefix`, `sriter` instead): `Seek(k)` for a non-empty `k` and the prefix iterator with a
+non-empty prefix over the vectors (`LoudsIter.seekLoop`, `searchGreaterThan`'s binary search,
+`moveToRightMostKey`), and backward iteration (`Prev` / `SeekToLast`). -/
 theorem louds_refines_tree_partial {kvs : List KV} {t : Node} (h : Buildable kvs) (ht : build kvs = some t) :
     (∀ n, n < (bfs t).length → firstLabelPos (encode t) n = offset t n) ∧
     (∀ pos l c, (flatItems t)[pos]? = some (.child l c) → (bfs t)[childNodeID (encode t) pos]? = some c) ∧
@@ -344,6 +437,29 @@ theorem louds_get_eq_lookup_partial {kvs : List KV} {t : Node} (eon : Bool) (h :
     (ht : build kvs = some t) (hff : eon = false → ∀ v, kvs ≠ [([255], v)]) (key : Key) :
     loudsGet eon (encode t) key = lookup key kvs := by
   rw [louds_get_refines_tree eon h ht key, get_eq_lookup_partial eon h ht hff key]
+
+/-- **LOUDS iteration = tree iteration = the sorted pairs**: the Go iterator as an explicit stack
+machine over the flat vectors (`LoudsIter`: `SeekToFirst`, then `Next` = climb while at the end
+of a node through the louds bits, `setAt`, `moveToLeftMostKey` with `childNodeID` /
+`firstLabelPos`, the per-level `posInTrie` / `nodeID` / `prefixLen` arrays and the incremental
+`keyBuf`, `Key()` with the terminator flag and the suffix vector, `Value()` through `valuePos`)
+enumerates exactly the in-order traversal of the tree, i.e. the sorted pair list -/
+theorem louds_iter_refines_tree {kvs : List KV} {t : Node} (h : Buildable kvs) (ht : build kvs = some t) :
+    LoudsIter.iterAll (encode t) = iter t ∧ LoudsIter.iterAll (encode t) = kvs := by
+  obtain ⟨t', ht', hit, hwf, _⟩ := build_spec h
+  rw [ht] at ht'; cases ht'
+  have := iterAll_eq_iter hwf
+  exact ⟨this, by rw [this, hit]⟩
+
+/-- the empty-prefix iterator over the vectors (`NewPrefixIterator(nil)`: the enumeration used by
+`TrieBucket.Write`, `CollectKVs`, `FindValuesByRegexp` and the suffix / contains like scans) is
+`Seek(nil)` = `SeekToFirst` followed by the same `Next` loop: it enumerates the sorted pairs
+(both variants of `Seek`) -/
+theorem louds_prefix_nil_refines_tree {kvs : List KV} {t : Node} (step : Bool) (h : Buildable kvs)
+    (ht : build kvs = some t) : LoudsIter.prefixAll step (encode t) [] = kvs := by
+  obtain ⟨t', ht', hit, hwf, _⟩ := build_spec h
+  rw [ht] at ht'; cases ht'
+  rw [prefixAll_nil_eq_iter hwf step, hit]
 
 /-- the encoded label / hasChild / louds / value vectors are the per-node rows concatenated in
 level order (what `trie.Init` / `bitVector.Init` do with the builder's levels) -/
@@ -452,6 +568,51 @@ theorem gen_bucket_builder_calls : Generated.C20.bucketBuilderWriteCalls =
 /-- `indexKVMerger.Merge`: unmarshal every block into one bucket, then `TrieBucket.Write` -/
 theorem gen_merger_calls : Generated.C20.mergerCalls =
     ["model.NewTrieBucket", "trieBucket.Unmarshal", "kvWriter.Prepare", "trieBucket.Write", "kvWriter.Commit"] := rfl
+
+/-- rank table: the reader's `lutSize()` and the writer's / `init`'s `nblks` agree, and are the
+`numBits/blockSize + 1` entries of the byte-layout model (`TrieWire.rankSize`, `readRank`) -/
+theorem gen_rank_lut_size (numBits blockSize : Nat) :
+    Generated.C20.rankLutSize numBits blockSize = 4 * Generated.C20.rankWriteBlocks numBits blockSize ∧
+    Generated.C20.rankWriteBlocks numBits blockSize = Generated.C20.rankInitBlocks numBits blockSize ∧
+    Generated.C20.rankWriteBlocks numBits blockSize = ((numBits / blockSize + 1 : Nat) : Int) := by
+  unfold Generated.C20.rankLutSize Generated.C20.rankWriteBlocks Generated.C20.rankInitBlocks
+  refine ⟨by omega, rfl, ?_⟩
+  simp [Int.ofNat_tdiv]
+
+/-- select table: `lutSize()` and the writer's `lutBlk` agree: `numOnes/64 + 1` entries -/
+theorem gen_select_lut_size (numOnes : Nat) :
+    Generated.C20.selectLutSize numOnes = 4 * Generated.C20.selectWriteBlocks numOnes ∧
+    Generated.C20.selectWriteBlocks numOnes = ((numOnes / selectSampleInterval + 1 : Nat) : Int) := by
+  unfold Generated.C20.selectLutSize Generated.C20.selectWriteBlocks selectSampleInterval
+  refine ⟨by omega, ?_⟩
+  simp [Int.ofNat_tdiv]
+
+/-- section order of `builder.Write`, `trie.UnmarshalBinary`, `MarshalSize` (= `TrieWire.marshal`) -/
+theorem gen_layout_order :
+    Generated.C20.writeCalls = ["uint32", "endian.PutUint32", "w.Write", "uint32", "endian.PutUint32", "w.Write",
+      "labelVec.Write", "b.initWriteContext", "hasChildVec.Write", "loudsVec.Write", "prefixVec.Write",
+      "suffixVec.Write", "len", "encoding.U32SliceToBytes", "w.Write"] ∧
+    Generated.C20.unmarshalCalls = ["len", "endian.Uint32", "endian.Uint32", "labelVec.Unmarshal",
+      "hasChildVec.Unmarshal", "loudsVec.Unmarshal", "prefixVec.Unmarshal", "suffixVec.Unmarshal", "int",
+      "values.Unmarshal"] ∧
+    Generated.C20.marshalSizeCalls = ["b.initWriteContext", "labelVec.MarshalSize", "hasChildVec.MarshalSize",
+      "loudsVec.MarshalSize", "prefixVec.MarshalSize", "suffixVec.MarshalSize"] := ⟨rfl, rfl, rfl⟩
+
+/-- rank / path vector writers and readers (= `writeRank`/`readRank`, `writePath`/`readPath`) -/
+theorem gen_vector_layout :
+    Generated.C20.rankWriteCalls = ["v.write", "endian.PutUint32", "w.Write", "encoding.U32SliceToBytes", "w.Write"] ∧
+    Generated.C20.rankUnmarshalCalls = ["len", "fmt.Errorf", "v.unmarshal", "endian.Uint32", "v.lutSize", "int",
+      "len", "len", "fmt.Errorf", "encoding.BytesToU32Slice"] ∧
+    Generated.C20.pathWriteCalls = ["hasPathVector.Write", "len", "uint32", "endian.PutUint32", "len", "uint32",
+      "endian.PutUint32", "w.Write", "encoding.U32SliceToBytes", "w.Write", "w.Write"] ∧
+    Generated.C20.pathUnmarshalCalls = ["hasPathVector.Unmarshal", "len", "fmt.Errorf", "endian.Uint32",
+      "endian.Uint32", "len", "uint32", "len", "fmt.Errorf", "encoding.BytesToU32Slice"] := ⟨rfl, rfl, rfl, rfl⟩
+
+/-- the like dispatch of `indexKVStore.FindValuesByLike` (= `TrieBucket.likePlan`): four bucket
+scans and the exact lookup -/
+theorem gen_like_calls : Generated.C20.likeCalls =
+    ["strings.HasPrefix", "strings.HasSuffix", "strutil.String2ByteSlice", "s.findValuesByLike", "len",
+     "s.findValuesByLike", "s.findValuesByLike", "len", "s.findValuesByLike", "s.findValue"] := rfl
 
 end Ties
 
